@@ -51,7 +51,7 @@ MANIFEST = dict(
               "co-indexing rule",
 )
 FLOORS = {"C11.1": 4, "C11.2": 8, "C11.3": 4, "C11.4": 12, "C11.5": 4,
-          "C11.6": 4, "C11.7": 1}
+          "C11.6": 4, "C11.7": 1, "C11.8": 6}
 
 PATH = "evo.core.trajectory.PosePath3D"
 TRAJ = "evo.core.trajectory.PoseTrajectory3D"
@@ -148,6 +148,13 @@ def check(ctx):
     # derived quantities must follow from the current poses, i.e. not be
     # cached across index reductions (instances of C08.7)
     from ..core import import_rules
+    # "down-sampling / motion filtering as requested" on the command line:
+    # evo_ape / evo_rpe apply them in common_ape_rpe.downsample_or_filter —
+    # both trajectories, the given thresholds, each step exactly when its
+    # own option asks for it (instances of C01.5, downsample_or_filter)
+    n = import_rules(ctx, "c01", ("C01.5",), "C11.8",
+                     pred=lambda o: ":dof:" in o.key)
+    ctx.require(n >= 6, "C11.8: downsample_or_filter instances not found")
     n = import_rules(ctx, "c08", ("C08.7",), "C11.6")
     ctx.require(n >= 4, "C11.6: derived-quantity instances not found")
 
